@@ -74,8 +74,9 @@ try:
     if confirmed:
         dst = os.path.join("/verif/seeded", sid)
         os.makedirs(dst, exist_ok=True)
-        shutil.copy(patch, dst)
-        shutil.copy(os.path.join(src, "demo_test.go"), dst)
+        if os.path.realpath(src) != os.path.realpath(dst):
+            shutil.copy(patch, dst)
+            shutil.copy(os.path.join(src, "demo_test.go"), dst)
         meta = {}
         try:
             meta = json.load(open(os.path.join(src, "meta.json")))
